@@ -17,7 +17,9 @@ import pathwalk as pw
 
 
 class Undecided(Exception):
-    pass
+    """the function cannot be read or evaluated. `helper` is set when the obstacle is a call of a function of the crate itself: part of
+    the decision was moved into a helper, which the reader does not follow"""
+    helper = False
 
 
 _CONV = ("::from", "::into", "::clone", "::borrow", "::as_ref", "::deref", "::to_owned")
@@ -181,7 +183,9 @@ class GridEval:
                 return self.ev(args[0]) * _unit_of(name)
             if name.endswith("::from_raw") and len(args) == 1:
                 return self.ev(args[0]) / _unit_of(name)
-            raise Undecided("call %s" % name)
+            e = Undecided("call %s" % name)
+            e.helper = bool(name) and not name.lstrip("<&").startswith(("std::", "core::", "alloc::"))
+            raise e
         if k == "agg":
             nm = str(t[1])
             if nm.endswith("ops::Range") and len(t[3]) == 2:
